@@ -402,7 +402,7 @@ func (c *EvalCtx) callSpecFunc(sf *SpecFunc, args []SExpr) (TV, error) {
 	if err != nil {
 		return TV{}, fmt.Errorf("%s: %v", sf.Name, err)
 	}
-	if sf.Body == nil {
+	if sf.Body == nil || sf.Opaque {
 		var sorts []Sort
 		var ts []string
 		for _, a := range avs {
@@ -410,10 +410,42 @@ func (c *EvalCtx) callSpecFunc(sf *SpecFunc, args []SExpr) (TV, error) {
 			ts = append(ts, a.T)
 		}
 		f := c.W().Uninterp("sf_"+sf.Name, sorts, rs)
+		var appl Val
 		if len(ts) == 0 {
-			return TV{Val: Val{f, rs}, Ty: rt, Unsigned: rt == nil}, nil
+			appl = Val{f, rs}
+		} else {
+			appl = Val{app(f, ts...), rs}
 		}
-		return TV{Val: Val{app(f, ts...), rs}, Ty: rt, Unsigned: rt == nil}, nil
+		if sf.Body != nil && c.e.revealed[sf.Name] {
+			// revealed opaque function: add the definitional instance for these arguments
+			bound := false
+			for _, t := range ts {
+				if strings.Contains(t, "!") {
+					bound = true
+				}
+			}
+			key := appl.T
+			if !bound && !c.e.revealDone[key] {
+				c.e.revealDone[key] = true
+				bc := &EvalCtx{e: c.e, st: c.st, old: c.old, fr: nil, bind: map[string]TV{}, spec: sf.Spec, depth: c.depth + 1}
+				for i, p := range sf.Params {
+					bc.bind[p.Name] = avs[i]
+				}
+				r, err := bc.eval(sf.Body)
+				if err != nil {
+					return TV{}, fmt.Errorf("in %s: %v", sf.Name, err)
+				}
+				r, err = c.coerce(r, TV{Val: Val{"", rs}, Ty: rt})
+				if err != nil {
+					return TV{}, err
+				}
+				if r.S != rs {
+					return TV{}, fmt.Errorf("%s: body has sort %s, declared %s", sf.Name, r.S, rs)
+				}
+				c.e.fact(Eq(appl, r.Val))
+			}
+		}
+		return TV{Val: appl, Ty: rt, Unsigned: rt == nil}, nil
 	}
 	// macro expansion in the current state, in the spec function's own file scope
 	bc := &EvalCtx{e: c.e, st: c.st, old: c.old, fr: nil, bind: map[string]TV{}, spec: sf.Spec, depth: c.depth + 1}
